@@ -27,6 +27,16 @@ def _clean(s):
     return re.sub(r"[A-Za-z0-9_:#]*::_serde::", "serde::", s)
 
 
+def _value_is_parser_result(ctx, f, parsers):
+    """In the REGION of the helper (module-private callees inlined) the returned Ok payload is exactly the Ok payload of the
+    serde_json entry point for the caller's T."""
+    from ..core import OK, F0
+    b = ctx.region(None, policy="private", key=f["key"])
+    lv = b.trace({"l": 0, "p": []}, (OK, F0))
+    return bool(lv) and all(l.kind == "call" and callee_name(l.data[1]) in parsers and l.path == (OK, F0) and "T" in l.data[1].get("generics", [])
+                            for l in lv)
+
+
 def run(ctx):
     fx = ctx.fx
     # ---- D1: every decode request made by local code
@@ -108,6 +118,9 @@ def run(ctx):
                 ctx.ok("C17/D3", key, "defers to %s::<T> only" % sorted(names), f["at"])
             elif not names and len(deleg) == 1 and len(local_calls) == 1:
                 ctx.ok("C17/D3", key, "delegates to %s (checked separately)" % deleg[0].get("resolved_full", deleg[0]["callee"]), f["at"])
+            elif names == want[m["name"]] and gens_ok and _value_is_parser_result(ctx, f, want[m["name"]]):
+                ctx.ok("C17/D3", key, "defers to %s::<T>: the Ok payload returned is the parser's Ok payload, untouched (private helpers "
+                       "inlined: %s)" % (sorted(names), sorted({callee_name(t) for t in local_calls})), f["at"])
             else:
                 ctx.bad("C17/D3", key, "channel helper is not a thin wrapper: serde_json calls %s, local calls %s" % (
                     sorted(names), [callee_name(t) for t in local_calls]), f["at"])
